@@ -169,6 +169,7 @@ class Frame:
         self.returns = []
         self.yields = []
         self.nograd = 0
+        self.nograd_nodes = []
 
     def stack(self):
         out = []
@@ -186,6 +187,13 @@ class Frame:
 
     def in_nograd(self):
         return any(f.nograd > 0 for f in self.stack())
+
+    def nograd_site(self):
+        """(frame, with-node) of the innermost enclosing `with torch.no_grad()`."""
+        for f in reversed(self.stack()):
+            if f.nograd_nodes:
+                return f, f.nograd_nodes[-1]
+        return None
 
 
 # (class name, attribute) -> contract of the object stored there when it is a constructor
@@ -267,6 +275,10 @@ class Domain:
 
     def nonempty_loop(self, interp, frame, node):
         return False
+
+    def shape_ann(self, ann):
+        """Annotation carried by x.shape / x.size() / x.dim() (Python ints)."""
+        return ann
 
 
 def join(dom, a, b):
@@ -844,11 +856,13 @@ class Interp:
                 self.assign(item.optional_vars, v, env, st)
         if nograd:
             self.frame.nograd += 1
+            self.frame.nograd_nodes.append(st)
         try:
             env, term = self.exec_block(st.body, env)
         finally:
             if nograd:
                 self.frame.nograd -= 1
+                self.frame.nograd_nodes.pop()
         return env, term
 
     def st_Try(self, st, env):
@@ -956,7 +970,7 @@ class Interp:
             return self.lift(r) if r is not None else TOP()
         if k in ("tensor",):
             if attr == "shape":
-                return AV("shape", None, base.ann)
+                return AV("shape", None, self.dom.shape_ann(base.ann))
             if attr in ("device", "dtype", "requires_grad", "is_cuda", "ndim"):
                 return AV("num", None, E)
             if attr in ("data", "T", "mT", "real"):
@@ -1735,6 +1749,12 @@ class Interp:
             return NUM(recv.ann)
         if k == "obj":
             # nn.Module API on repository objects
+            if name in ("register_buffer", "register_parameter") and args and args[0].kind == "const":
+                persistent = kwargs.get("persistent", args[2] if len(args) > 2 else CONST(True))
+                h = getattr(dom, "on_register", None)
+                if h is not None:
+                    h(self, recv, name, args[0].data, args[1] if len(args) > 1 else NONE, persistent, node)
+                return NONE
             if name in ("parameters", "buffers", "named_parameters", "children", "modules"):
                 return LST(None, T())
             if name in ("train", "eval", "to", "double", "float", "cuda", "cpu", "requires_grad_", "zero_grad", "apply", "register_buffer", "register_parameter", "add_module", "state_dict", "load_state_dict", "_apply", "_load_from_state_dict", "extra_repr", "type"):
